@@ -781,6 +781,8 @@ class Engine:
             if mod in self.repo.modules:
                 r = self.repo.resolve_global(self.repo.modules[mod], a.name)
                 sv = self.global_to_sv(r, f"{mod}.{a.name}")
+            if sv is None and f"{mod}.{a.name}" in self.ext_consts:
+                sv = self.ext_consts[f"{mod}.{a.name}"](self)
             if sv is None:
                 sv = SV("func", ("ext", f"{mod}.{a.name}"))
             st = st.set(a.asname or a.name, sv)
@@ -1314,6 +1316,13 @@ class Engine:
             return SV("class", name)
         if self.spec_ctx and name in self.repo.classes:
             return SV("class", name)  # specifications may name any class of the package
+        if self.spec_ctx:
+            # ... and any modelled external module / constant (function-local imports are not in scope in the pre-state)
+            if any(k.startswith(name + ".") for k in self.ext_models):
+                return SV("module", name)
+            for k, mk in self.ext_consts.items():
+                if k.endswith("." + name):
+                    return mk(self)
         return None
 
     def global_to_sv(self, r, key):
